@@ -58,6 +58,8 @@ def main(tier, seed, replay=None):
         roots.append(("random", c01.gen_circuit(rs, i, tier, kinds=[("bern",), ("bern", "cat")][i % 2], clt=0.35)))
     for i in range(8 if tier == "quick" else 60):
         r = G.rand_nested_mixture(rs); assign_ids(r)
+        if rs.rand() < 0.5:
+            c01.relabel_ids(r, rs)
         roots.append(("random", r))
     for r in learned_circuits(rs, 4 if tier == "quick" else 20):
         roots.append(("learned", r))
